@@ -83,6 +83,26 @@ class K(icontract.DBC):
         await GATES.agate(tag, "body")
         return tag
 
+    async def ahold(self, tag):
+        """Stays inside the method for a while without touching the state."""
+        await GATES.agate(tag, "body")
+        return tag
+
+    async def abreak(self, tag):
+        """Breaks the invariant for good: the check after the call must always report it."""
+        await GATES.agate(tag, "body")
+        self.ok = False
+        return tag
+
+    def thold(self, tag):
+        GATES.tgate(tag, "body")
+        return tag
+
+    def tbreak(self, tag):
+        GATES.tgate(tag, "body")
+        self.ok = False
+        return tag
+
     @icontract.require(lambda x: x > 0, error=lambda x, tag: Rejected("pre:" + tag))
     async def aarg(self, x, tag):
         await GATES.agate(tag, "body")
@@ -174,12 +194,16 @@ def async_configs() -> List[Dict[str, Any]]:
         {"name": "same-function-three", "calls": [("a", "af", (1,), "ok"), ("b", "af", (-1,), "pre:b"), ("c", "af", (3,), "ok")]},
         {"name": "same-object-invariant-broken-meanwhile", "calls": [("a", "o1.aslow", (), "ok"), ("b", "o1.acheck", (), "inv:o1|ok")]},
         {"name": "different-objects", "calls": [("a", "o1.aslow", (), "ok"), ("b", "o2.acheck", (), "ok")]},
+        # the late caller itself breaks the invariant: its verdict does not depend on the schedule at all
+        {"name": "same-object-late-call-breaks-invariant", "calls": [("a", "o1.ahold", (), "ok|inv:o1"), ("b", "o1.abreak", (), "inv:o1")]},
+        {"name": "same-object-both-break-invariant", "calls": [("a", "o1.abreak", (), "inv:o1"), ("b", "o1.abreak", (), "inv:o1")]},
         {"name": "same-method-two-objects-late-invalid", "calls": [("a", "o1.aarg", (1,), "ok"), ("b", "o2.aarg", (-1,), "pre:b")]},
         {"name": "same-object-same-method-late-invalid", "calls": [("a", "o1.aarg", (1,), "ok"), ("b", "o1.aarg", (-1,), "pre:b")]},
     ]
 
 
-ASYNC_MODES = ["tasks-before-parent-ran-contracts", "tasks-after-parent-ran-contracts", "gather-after", "taskgroup-after"]
+ASYNC_MODES = ["tasks-before-parent-ran-contracts", "tasks-after-parent-ran-contracts", "gather-after", "taskgroup-after",
+               "objects-constructed-in-parent-first"]
 
 
 def outcome_of(exc: Optional[BaseException], res: Any) -> str:
@@ -211,10 +235,15 @@ def run_async_schedule(mod: Any, gates: Gates, config: Dict[str, Any], mode: str
 
     async def main() -> None:
         gates.mode = "free"
-        # the objects are made in a context of their own so that constructing them leaves no trace in the parent's context
-        objs["o1"] = contextvars.Context().run(mod.K, "o1")
-        objs["o2"] = contextvars.Context().run(mod.K, "o2")
-        if mode != "tasks-before-parent-ran-contracts":
+        if mode == "objects-constructed-in-parent-first":
+            # the very first contracted operation of the parent context is the construction of the objects
+            objs["o1"] = mod.K("o1")
+            objs["o2"] = mod.K("o2")
+        else:
+            # the objects are made in a context of their own so that constructing them leaves no trace in the parent's context
+            objs["o1"] = contextvars.Context().run(mod.K, "o1")
+            objs["o2"] = contextvars.Context().run(mod.K, "o2")
+        if mode not in ("tasks-before-parent-ran-contracts", "objects-constructed-in-parent-first"):
             # the parent executes contracted code before spawning: the copies of its context made for the tasks are
             # taken after the library created its bookkeeping in this context
             mod.quick(1, "parent")
@@ -268,7 +297,8 @@ def run_async_schedule(mod: Any, gates: Gates, config: Dict[str, Any], mode: str
 
 def explore_async(w, mod: Any, gates: Gates, cap: int) -> None:
     for config in async_configs():
-        for mode in ("tasks-before-parent-ran-contracts", "tasks-after-parent-ran-contracts", "gather-after", "taskgroup-after"):
+        for mode in ("tasks-before-parent-ran-contracts", "tasks-after-parent-ran-contracts", "gather-after", "taskgroup-after",
+                     "objects-constructed-in-parent-first"):
             explorer = Explorer(cap)
             n = 0
             while not explorer.done:
@@ -295,7 +325,7 @@ def explore_async(w, mod: Any, gates: Gates, cap: int) -> None:
 
 
 def classify(mode: str) -> str:
-    if "after" in mode or mode in ("to_thread", "copied-after"):
+    if "after" in mode or mode in ("to_thread", "copied-after", "objects-constructed-in-parent-first", "context-copied-after-ctor"):
         return "C12/in-progress-set-aliased-across-context-copies"
     return "C12/verdict-depends-on-concurrent-call"
 
@@ -310,10 +340,11 @@ def thread_configs() -> List[Dict[str, Any]]:
         {"name": "same-function-three", "calls": [("a", "sf", (1,), "ok"), ("b", "sf", (-1,), "pre:b"), ("c", "sf", (2,), "ok")]},
         {"name": "same-object-invariant-broken-meanwhile", "calls": [("a", "o1.tslow", (), "ok"), ("b", "o1.tcheck", (), "inv:o1|ok")]},
         {"name": "different-objects", "calls": [("a", "o1.tslow", (), "ok"), ("b", "o2.tcheck", (), "ok")]},
+        {"name": "same-object-late-call-breaks-invariant", "calls": [("a", "o1.thold", (), "ok|inv:o1"), ("b", "o1.tbreak", (), "inv:o1")]},
     ]
 
 
-THREAD_MODES = ["fresh-thread", "context-copied-before", "context-copied-after", "to_thread"]
+THREAD_MODES = ["fresh-thread", "context-copied-before", "context-copied-after", "to_thread", "context-copied-after-ctor"]
 
 
 def run_thread_schedule(mod: Any, gates: Gates, config: Dict[str, Any], mode: str, explorer: Explorer) -> Tuple[Dict[str, str], List[str], bool]:
@@ -341,8 +372,12 @@ def run_thread_schedule(mod: Any, gates: Gates, config: Dict[str, Any], mode: st
 
     def parent() -> None:
         gates.mode = "free"
-        objs["o1"] = contextvars.Context().run(mod.K, "o1")
-        objs["o2"] = contextvars.Context().run(mod.K, "o2")
+        if mode == "context-copied-after-ctor":
+            objs["o1"] = mod.K("o1")
+            objs["o2"] = mod.K("o2")
+        else:
+            objs["o1"] = contextvars.Context().run(mod.K, "o1")
+            objs["o2"] = contextvars.Context().run(mod.K, "o2")
         ctx_before = contextvars.copy_context()
         if mode in ("context-copied-after", "to_thread"):
             mod.quick(1, "parent")
